@@ -614,16 +614,22 @@ bool Process::open(const String& executable, int argc, char* const argv[], uint 
   {
     if (pipe(stdoutFds) != 0)
       goto error;
+    fcntl(stdoutFds[0], F_SETFD, FD_CLOEXEC); // do not leak the pipe into other child processes
+    fcntl(stdoutFds[1], F_SETFD, FD_CLOEXEC);
   }
   if (streams & stderrStream)
   {
     if (pipe(stderrFds) != 0)
       goto error;
+    fcntl(stderrFds[0], F_SETFD, FD_CLOEXEC); // do not leak the pipe into other child processes
+    fcntl(stderrFds[1], F_SETFD, FD_CLOEXEC);
   }
   if (streams & stdinStream)
   {
     if (pipe(stdinFds) != 0)
       goto error;
+    fcntl(stdinFds[0], F_SETFD, FD_CLOEXEC); // do not leak the pipe into other child processes
+    fcntl(stdinFds[1], F_SETFD, FD_CLOEXEC);
   }
 
   {
